@@ -45,6 +45,7 @@ def templates(cfg):
     # promote it anyway): value and - through C12's type obligations - exported dtype (round 5, C12-F)
     T("int_to_generic_float_bare", lambda p, t: t >> p.mutate(y=t.a.cast(p.Float()), z=t.a.cast(p.Float()) * 2, w=-t.a.cast(p.Float())))
     T("generic_targets_bare", lambda p, t: t >> p.mutate(n=p.lit(None).cast(p.Int()), m=p.lit(None).cast(p.Float()), i=t.a.cast(p.Int()), g=t.f.cast(p.Float())))
+    T("typed_int_literal_as_float", lambda p, t: t >> p.mutate(x=p.lit(3, p.Float()), y=p.lit(3, p.Float64()), z=p.lit(2, p.Float()) + t.a))  # F70
     T("generic_float_agg", lambda p, t: t >> p.summarize(s=t.a.cast(p.Float()).sum(), m=t.a.cast(p.Float()).max()))
     T("int_to_generic_float_to_string", lambda p, t: t >> p.mutate(y=t.a.cast(p.Float()).cast(p.String())), int_bound=1000)
     T("int_to_float64_to_string", lambda p, t: t >> p.mutate(y=t.a.cast(p.Float64()).cast(p.String())), int_bound=1000)
